@@ -9,6 +9,7 @@ From DBG Require Interop.DispatchFilter.
 From DBG Require Interop.DispatchUnitig.
 From DBG Require Interop.DispatchEdges.
 From DBG Require Interop.DispatchRecomp.
+From DBG Require Interop.DispatchExport.
 Import ListNotations.
 Open Scope N_scope.
 
@@ -140,7 +141,8 @@ Definition dispatchers : list (string -> val -> option val) :=
     (fun op v => if DispatchScan.is_scan_op op then DispatchScan.d_scan op v else None);
     (fun op v => if existsb (String.eqb op) ["s.filter"; "s.filter_get"; "f.filter"; "chk.filter_rc"]%string
                  then DispatchFilter.d_filter op v else None);
-    DispatchEdges.d_edges
+    DispatchEdges.d_edges;
+    DispatchExport.d_export
   ].
 Fixpoint first_some (ds : list (string -> val -> option val)) (op : string) (v : val) : option val :=
   match ds with
